@@ -27,8 +27,32 @@ def _obs(SN, bits, a, b):
     return s
 
 
+def _chain(SN, bits, a, ns):
+    """left operand = the object returned by the previous addition (never a fresh instance):
+    sums must carry the ring parameters of their operands"""
+    x = SN(a, serialBits=bits)
+    t = lambda v: "T" if v is True else ("F" if v is False else "?" + repr(v))
+    out = []
+    for n in ns:
+        y = SN(n, serialBits=bits)
+        s = t(x == y) + t(x < y) + t(x > y) + t(x <= y) + t(x >= y)
+        try:
+            r = x + y
+            if type(r) is not SN or r._serialBits != bits:
+                s += "?type"
+            else:
+                s += str(int(r))
+                x = r
+        except ArithmeticError:
+            s += "!"
+        out.append(s)
+    return ";".join(out)
+
+
 def impl(case) -> str:
     SN = _sn()
+    if case["kind"] == "chain":
+        return _chain(SN, case["bits"], case["a"], case["ns"])
     if case["kind"] == "table":
         bits = case["bits"]
         vs = range(2 ** bits)
@@ -64,6 +88,21 @@ def _check_pair(case, bits, a, b, got):
 
 
 def oracle(case, obs):
+    if case["kind"] == "chain":
+        bits, cur = case["bits"], case["a"] % 2 ** case["bits"]
+        parts = obs.split(";")
+        if len(parts) != len(case["ns"]):
+            return Failure(case, "malformed chain", "chain")
+        for k, (n, got) in enumerate(zip(case["ns"], parts)):
+            f = _check_pair(case, bits, cur, n, got)
+            if f:
+                f.reason = f"step {k} of a chain of additions (left operand is the previous sum): " + f.reason
+                f.tag = "chain-" + f.tag
+                return f
+            exp, (a, b, m, h, *_rest) = _rfc_obs(bits, cur, n)
+            if not exp.endswith("!"):
+                cur = (a + b) % m
+        return None
     if case["kind"] == "table":
         bits = case["bits"]
         parts = obs.split(",")
@@ -98,16 +137,40 @@ def gen(rng, tier):
         else:
             b = rng.randrange(m)
         cases.append({"kind": "pair", "bits": bits, "a": a, "b": b})
+    # values that collide under Python's int hash (hash(n) = n mod (2**61 - 1) on 64-bit builds):
+    # equality and ordering must not depend on it
+    P = 2 ** 61 - 1
+    for bits in (61, 62, 64, 96, 128):
+        m = 2 ** bits
+        for a in (0, 1, 5, P - 1, rng.randrange(m)):
+            for k in (1, 2, 3, 7):
+                for d in (0, 1, -1):
+                    cases.append({"kind": "pair", "bits": bits, "a": a % m, "b": (a + k * P + d) % m})
+    # chains: ((a + n1) + n2) + ...; every width, addends around the true limit of that width and
+    # around the 32-bit limit
+    for _ in range(400 if tier == "quick" else 20000):
+        bits = rng.choice([1, 2, 3, 4, 8, 9, 16, 31, 32, 33, 40, 64, 128])
+        m, h = 2 ** bits, 2 ** (bits - 1)
+        pool = [0, 1, h - 2, h - 1, h, h + 1, m - 1, 2 ** 31 - 2, 2 ** 31 - 1, 2 ** 31, 2 ** 40, rng.randrange(m)]
+        ns = [rng.choice(pool) % m for _ in range(rng.randrange(2, 6))]
+        cases.append({"kind": "chain", "bits": bits, "a": rng.randrange(m), "ns": ns})
     return cases
 
 
 def to_coq(case):
+    if case["kind"] == "chain":
+        ns = "; ".join(f"({n})%Z" for n in case["ns"])
+        return f"inr (inr (({case['bits']})%Z, ({case['a']})%Z, [{ns}]))"
+    if case["kind"] == "pair":
+        return f"inr (inl (({case['bits']})%Z, ({case['a']})%Z, ({case['b']})%Z))"
     if case["kind"] == "table":
         return f"inl ({case['bits']})%Z"
     return f"inr (({case['bits']})%Z, ({case['a']})%Z, ({case['b']})%Z)"
 
 
 def hist(case, obs):
+    if case["kind"] == "chain":
+        return "chain:" + str(len(case["ns"])) + ("-refusal" if "!" in obs else "")
     return case["kind"] + ":" + (str(case["bits"]) if case["kind"] == "table" else
                                  ("add-refused" if obs.endswith("!") else "add-ok"))
 
@@ -118,16 +181,19 @@ SPEC = Spec(
     impl=impl,
     oracle=oracle,
     coq_header="From C34 Require Import Gen Model.\n"
-               "Definition run (c : Z + (Z * Z * Z)) := match c with inl w => run_table w | inr p => run_pair p end.",
+               "Definition run (c : Z + ((Z * Z * Z) + (Z * Z * list Z))) := match c with inl w => run_table w "
+               "| inr (inl p) => run_pair p | inr (inr (b, a, ns)) => run_chain b a ns end.",
     coq_fn="run",
     to_coq=to_coq,
     regen=lambda: tr.regen(REPO, COQ),
-    nontrivial=lambda c, o: c["kind"] == "table" or c["a"] != c["b"],
+    nontrivial=lambda c, o: c["kind"] in ("table", "chain") or c["a"] != c["b"],
     histogram=hist,
     shrink=None,
     rule="widths 1..6 (quick) / 1..8 (thorough): every pair of values (one 'table' case per width); random pairs "
          "for widths 9..128 biased to half-ring distance +-2, 0, max and un-reduced constructor arguments; "
-         "non-trivial = table, or pair with a != b; distinct by (case, observation)",
+         "pairs whose values collide under Python's int hash (difference k*(2^61-1)) for widths >= 61; chains of "
+         "2..5 additions whose left operand is the previous sum (widths 1..128, addends around the true limit and the "
+         "32-bit limit); non-trivial = table, chain, or pair with a != b; distinct by (case, observation)",
     trusted=[
         "translator translate/py2coq.py + translate/c34.py (fail-closed; validated by this correspondence run)",
         "Python int arithmetic = Z arithmetic (** as Z.pow for exponents >= 0, % as Z.modulo for positive modulus)",
